@@ -288,13 +288,13 @@ Lemma boxes_spec op A B :
   (forall x y, mem x A = true -> mem y B = true -> existsb (in_itv (bin_value op x y)) (boxes op A B) = true).
 Proof.
   intros WA WB Hs. split.
-  - unfold boxes. apply Forall_forall. intros i Hi. apply in_flat_map in Hi as (a & Ha & Hi).
-    apply in_map_iff in Hi as (b & <- & Hb).
+  - unfold boxes. apply Forall_forall. intros i Hi. apply in_flat_map in Hi as (b & Hb & Hi).
+    apply in_map_iff in Hi as (a & <- & Ha).
     pose proof (wf_intervals_in A a WA Ha). pose proof (wf_intervals_in B b WB Hb).
     apply (box_image_sound op a b (fst a) (fst b)); [apply Hs; auto|unfold in_itv; lia|unfold in_itv; lia].
   - intros x y Hx Hy. apply mem_interval in Hx as (a & Ha & Hxa). apply mem_interval in Hy as (b & Hb & Hyb).
     apply existsb_exists. exists (box_image op a b). split.
-    + unfold boxes. apply in_flat_map. exists a. split; auto. apply in_map. exact Hb.
+    + unfold boxes. apply in_flat_map. exists b. split; auto. apply (in_map (fun a0 => box_image op a0 b)). exact Ha.
     + apply box_image_sound; auto.
 Qed.
 
